@@ -324,7 +324,7 @@ func scenC05(r *Run) {
 	}
 	r.Res.Extra["distinct_cases"] = split
 	r.Res.LogHash = fmt.Sprintf("%x", verifsim.HashString(string(stream)))
-	if r.Index < 3 {
+	if r.Trace {
 		r.Res.Extra["sample"] = map[string]interface{}{"kinds": kinds, "stream": string(clip(stream, 200)), "reference_outcome": ref.ec, "fragmentations_tried": cases}
 	}
 }
